@@ -221,6 +221,31 @@ func (x *X) EnableStalls(denom, budget int, durs ...time.Duration) {
 	}
 }
 
+// WaitFree (free mode, race tier) waits until the workload's goroutines have finished. If they
+// have not after ten minutes of virtual time they are blocked for good; when some of them wait on
+// instrumented (Helios) locks that is a deadlock in Helios code and a violation of prop, reported
+// with the wait-for cycle among the lock sites if there is one.
+func (x *X) WaitFree(wg *sync.WaitGroup, prop, what string) bool {
+	finished := make(chan struct{})
+	go func() { wg.Wait(); close(finished) }()
+	select {
+	case <-finished:
+		return true
+	case <-time.After(10 * time.Minute): // virtual
+	}
+	ws := simrt.FreeLockWaiters()
+	key := ws
+	if cyc := simrt.FreeLockCycle(); cyc != nil {
+		key = cyc
+	}
+	if len(ws) > 0 {
+		x.Violate(prop, prop+"/deadlock{"+strings.Join(key, "+")+"}", "goroutines %s are blocked for good on Helios locks at %v", what, ws)
+	} else {
+		x.Probe("workload-did-not-finish")
+	}
+	return false
+}
+
 // schedErr is called when the scheduler reports deadlock / no-progress.
 func (x *X) schedErr(e *simrt.SchedError, onErr func(*simrt.SchedError)) {
 	x.dead = true
@@ -449,6 +474,18 @@ func execRun(t *testing.T, sc *Scenario, x *X) (out runOutcome) {
 						fmt.Fprintf(os.Stderr, "---- abandoned bubble: goroutines\n%s\n", buf[:n])
 					}
 					return
+				}
+				if strings.Contains(s, "all goroutines in bubble are blocked") {
+					// free mode: everything, the scenario's root included, is blocked for good. When
+					// goroutines wait on instrumented (Helios) locks this is a deadlock in Helios code
+					if ws := simrt.FreeLockWaiters(); len(ws) > 0 {
+						key := ws
+						if cyc := simrt.FreeLockCycle(); cyc != nil {
+							key = cyc
+						}
+						x.Violate("C12", "C12/deadlock{"+strings.Join(key, "+")+"}", "every goroutine of the run is blocked for good; goroutines wait on Helios locks at %v", ws)
+						return
+					}
 				}
 				buf := make([]byte, 16<<10)
 				n := runtime.Stack(buf, false)
